@@ -185,6 +185,36 @@ def reimport_programs():
     return cases
 
 
+# ---------------------------------------------------------------- modules whose text stops in the middle of a statement
+def unfinished_module_programs():
+    """A module's tokens are spliced into the importing file's tokens, so a module that stops in the middle of a statement
+    continues with the tokens that follow its import.  The module keyword as the last token is the dangerous one: the import
+    name would be a token of the importing file, which does not carry the module's import name (DESIGN D.9)."""
+    cases = []
+    KW = 'মডিউল'
+    # the loop: a's last statement names a itself under a built-in's name, b ends with the module keyword
+    for name in ['_টাইপ', '_প্ল্যাটফর্ম', '_লিস্ট-লেন', 'খ', 'ক']:
+        for tail in ['', '\n', ' ', '\n# শেষ #\n']:
+            cases.append({'src': prog(['মডিউল ক = "a.pakhi";', 'দেখাও "main";']),
+                          'files': [('a.pakhi', prog(['মডিউল খ = "b.pakhi";', '%s = "a.pakhi";' % name, 'দেখাও "a";'])), ('b.pakhi', 'দেখাও "b";\n' + KW + tail)], 'kind': 'module-ends-with-keyword'})
+    for name in ['_টাইপ', 'গ']:
+        # the same through one more level, and with the name taken from the root
+        cases.append({'src': prog(['মডিউল ক = "a.pakhi";', 'দেখাও "main";']),
+                      'files': [('a.pakhi', prog(['মডিউল খ = "b.pakhi";', 'দেখাও "a";'])), ('b.pakhi', prog(['মডিউল গ = "c.pakhi";', '%s = "b.pakhi";' % name, 'দেখাও "b";'])), ('c.pakhi', KW)], 'kind': 'module-ends-with-keyword'})
+        cases.append({'src': prog(['মডিউল ক = "a.pakhi";', '%s = "a.pakhi";' % name, 'দেখাও "main";']), 'files': [('a.pakhi', 'দেখাও "a";\n' + KW)], 'kind': 'module-ends-with-keyword'})
+        cases.append({'src': prog(['মডিউল ক = "a.pakhi";', '%s = "b.pakhi";' % name, 'দেখাও "main";']), 'files': [('a.pakhi', 'দেখাও "a";\n' + KW), ('b.pakhi', 'দেখাও "b";\n')], 'kind': 'module-ends-with-keyword'})
+    cases.append({'src': prog(['মডিউল ক = "a.pakhi";', 'দেখাও "main";']), 'files': [('a.pakhi', KW)], 'kind': 'module-ends-with-keyword'})
+    cases.append({'src': prog(['মডিউল ক = "a.pakhi";']), 'files': [('a.pakhi', KW + ' ' + KW)], 'kind': 'module-ends-with-keyword'})
+    cases.append({'src': prog(['মডিউল ক = "a.pakhi";', 'দেখাও "main";']), 'files': [('a.pakhi', '# only a comment #'), ], 'kind': 'module-empty'})
+    cases.append({'src': prog(['মডিউল ক = "a.pakhi";', 'দেখাও "main";']), 'files': [('a.pakhi', ''), ], 'kind': 'module-empty'})
+    # other unfinished endings: they continue with the importing file's tokens, which is odd but finite
+    for end in ['মডিউল খ', 'মডিউল খ =', 'মডিউল খ = "b.pakhi"', 'মডিউল খ = "b" +', 'দেখাও ১', 'দেখাও', 'নাম ক =', 'নাম', 'যদি', 'ফাং ফ(', '[১,', 'ক', 'ক[০]', 'ফেরত', 'লুপ', '{', 'দেখাও (১ +']:
+        for nxt in ['দেখাও "main";', '"b.pakhi";', '২;', '= "b.pakhi";', 'খ = "b.pakhi";']:
+            cases.append({'src': prog(['নাম ক = [১];', 'মডিউল ম = "a.pakhi";', nxt, 'দেখাও "শেষ";']),
+                          'files': [('a.pakhi', 'দেখাও "a";\n' + end), ('b.pakhi', 'দেখাও "b";\n')], 'kind': 'module-unfinished'})
+    return cases
+
+
 IMPORT_FORMS2 = ['মডিউল ম = "mod.pakhi" # note #;', 'মডিউল ম = "mo" # a # + "d.pakhi";', 'মডিউল ম = # a # "mod.pakhi";', 'মডিউল ম # a # = "mod.pakhi";', 'মডিউল # a # ম = "mod.pakhi";', 'মডিউল ম = "mo" + # a # "d.pakhi";', 'মডিউল ম = "mod.pakhi" "x";',
                  'মডিউল ম = "mo" "d.pakhi";', 'মডিউল ম = "mod.pakhi" +;', 'মডিউল ম = "mod.pakhi" + ১;', 'মডিউল ম = "mod.pakhi" + ক;', 'মডিউল ম = ("mod.pakhi");', 'মডিউল ম = "mod.pakhi"; # পরে #']
 
